@@ -125,7 +125,10 @@ def make_variant(kind: str, rng: random.Random) -> dict:
         v.update(engines=core.pick(rng, ["engine0", "engine1", "both"]), ukey=rng.randrange(2))
     elif kind == "hab_config":
         v.update(keylen=core.pick(rng, [128, 192, 256]), dcd=rng.random() < 0.5, app_len=core.pick(rng, [1024, 3000, 8192]),
-                 mac=core.pick(rng, [16, 16, 8]), reuse0=rng.random() < 0.5)
+                 mac=core.pick(rng, [16, 16, 8]), reuse0=rng.random() < 0.5,
+                 # several builds in ONE project directory (what a user who re-runs 'nxpimage hab export' does): the
+                 # DEK file written by an earlier build is lying there and must not be picked up as "the" key
+                 shared_dir=rng.random() < 0.5)
     elif kind == "bootimgrt_add_image":
         v.update(dek=core.pick(rng, ["empty", "empty", "given"]), app_len=core.pick(rng, [1024, 2048]))
         v["nexp"] = 0
@@ -186,7 +189,7 @@ class Env:
         self.repo = core.repo_root()
         os.makedirs(workdir, exist_ok=True)
 
-    def dir(self, aid: int) -> str:
+    def dir(self, aid) -> str:
         d = os.path.join(self.workdir, f"a{aid}")
         os.makedirs(d, exist_ok=True)
         return d
@@ -703,14 +706,15 @@ section (SEC_CSF_DECRYPT_DATA;
 class HabArt(Art):
     def option_class(self):
         v = self.var
-        return f"keylen={v['keylen']} dcd={v['dcd']} app={v['app_len']} mac={v['mac']} reuse0={v.get('reuse0', False)}"
+        return (f"keylen={v['keylen']} dcd={v['dcd']} app={v['app_len']} mac={v['mac']} reuse0={v.get('reuse0', False)} "
+                f"shared_dir={v.get('shared_dir', False)}")
 
     def construct(self):
         from spsdk.image.hab.hab_container import HabContainer
 
         v = self.var
         self.invented = {"dek", "nonce"}
-        d = self.dirname = self.env.dir(self.aid)
+        d = self.dirname = self.env.dir("habproject" if v.get("shared_dir") else self.aid)
         data = self.env.hab_data()
         dcd = ""
         if v["dcd"]:
@@ -727,6 +731,8 @@ class HabArt(Art):
         self.see("dek", csf.dek, f"attr@{src}")
         self.see("nonce", csf.nonce, f"attr@{src}")
         p = os.path.join(self.dirname, "gen_hab_encrypt", "dek.bin")
+        if self.var.get("shared_dir") and src != "construct":
+            return  # in a shared project directory the key file belongs to whichever build ran last
         if os.path.isfile(p):
             with open(p, "rb") as f:
                 self.see("dek", f.read(), "written-key-file")
@@ -1080,7 +1086,8 @@ REPO_TESTS_THOROUGH = [["tests/sbfile"], ["tests/image/mbi"], ["tests/utils/cryp
 
 
 # directed witnesses are deterministic: the options that decide whether the defect shows are pinned
-DIRECTED_FORCE = {"bootimgrt_add_image": {"dek": "empty"}, "mbi_ctor": {"hmac": 0, "keysource": "OTP"}}
+DIRECTED_FORCE = {"bootimgrt_add_image": {"dek": "empty"}, "mbi_ctor": {"hmac": 0, "keysource": "OTP"},
+                  "hab_config": {"shared_dir": True}}
 
 
 def cases(tier, seed):  # noqa: ARG001
